@@ -102,7 +102,14 @@ def _load_yaml_checks(fn):
         out.append((ty, raises[0].exc.args[0].id))
     kinds = {"FileNotFoundError": "Missing", "yaml.YAMLError": "Yaml"}
     res = []
-    for ty, code in out:
+    for i, (ty, code) in enumerate(out):
+        if ty == "(OSError, UnicodeDecodeError)":
+            # a file that exists and cannot be read as text (a directory, no permission, bytes that are not UTF-8): outside the file
+            # states of the model (present / missing / unparsable); judged by the direct oracle of C17.  It must not shadow the
+            # handler for a missing file (FileNotFoundError is an OSError) and must answer with the file-error code.
+            if code != "EXIT_FILE_ERROR" or "FileNotFoundError" not in [t for t, _ in out[:i]]:
+                raise TranslationError("_load_yaml: the handler for unreadable files shadows FileNotFoundError or does not exit with EXIT_FILE_ERROR")
+            continue
         if ty not in kinds:
             raise TranslationError("_load_yaml: unknown handler " + ty)
         res.append((kinds[ty], code))
